@@ -33,13 +33,14 @@ type fakeDest struct {
 	d    int
 	spec DstSpec
 
-	mu        sync.Mutex
-	pending   []pend
-	ackCalls  int
-	chunkIdx  int
-	emptyLeft int
-	closed    chan struct{}
-	closeOnce sync.Once
+	mu         sync.Mutex
+	pending    []pend
+	writeCalls int
+	ackCalls   int
+	chunkIdx   int
+	emptyLeft  int
+	closed     chan struct{}
+	closeOnce  sync.Once
 }
 
 func newFakeDest(x *run, d int, spec DstSpec) *fakeDest {
@@ -68,8 +69,18 @@ func (f *fakeDest) Write(ctx context.Context, recs []opencdc.Record) error {
 		}
 	}
 	f.x.log.Add(evs...)
-	if err := f.x.sched.Park(ctx, fmt.Sprintf("W%d", f.d), f.spec.Slow, f.closed); err != nil {
-		return err
+	f.mu.Lock()
+	f.writeCalls++
+	hold := f.spec.Hold && f.x.c.Ctl != nil && f.writeCalls > f.spec.HoldFrom
+	f.mu.Unlock()
+	var perr error
+	if hold {
+		perr = f.x.sched.ParkHeld(ctx, fmt.Sprintf("W%d", f.d), f.closed)
+	} else {
+		perr = f.x.sched.Park(ctx, fmt.Sprintf("W%d", f.d), f.spec.Slow, f.closed)
+	}
+	if perr != nil {
+		return perr
 	}
 	if fail {
 		for i := range evs {
@@ -242,7 +253,10 @@ func (f *fakeSource) Read(ctx context.Context) ([]opencdc.Record, error) {
 	more := f.batch < len(f.spec.Batches) && !f.halted
 	f.mu.Unlock()
 	if more {
-		if err := f.x.sched.Park(ctx, fmt.Sprintf("R%d", f.s), false, f.stopped); err != nil {
+		f.mu.Lock()
+		slow := f.spec.SlowRead && f.batch > 0
+		f.mu.Unlock()
+		if err := f.x.sched.Park(ctx, fmt.Sprintf("R%d", f.s), slow, f.stopped); err != nil {
 			return nil, err
 		}
 	}
@@ -283,9 +297,10 @@ func (f *fakeSource) Ack(ctx context.Context, positions []opencdc.Position) erro
 	for i, p := range positions {
 		ks[i] = kOfPos(p)
 	}
-	if err := f.x.sched.Park(ctx, fmt.Sprintf("K%d", f.s), f.spec.SlowAck, nil); err != nil {
-		return err
-	}
+	// An engine that calls Source.Ack after its context ended has still acked: the call
+	// is the observation (the real connector may well persist the position), so it is
+	// logged whether or not the gate was released by the schedule.
+	_ = f.x.sched.Park(ctx, fmt.Sprintf("K%d", f.s), f.spec.SlowAck, nil)
 	f.x.log.Add(Ev{T: "A", S: f.s, Ks: ks})
 	return nil
 }
